@@ -1,6 +1,7 @@
 """Source of MANIFEST.json (bin/mkmanifest writes and validates it)."""
 
-HOOK_COMMITS = ["ab3948d verif hook (guarded by DSPLIB_VERIF): plan-cache key accessors and access observer"]
+HOOK_COMMITS = ["ab3948d verif hook (guarded by DSPLIB_VERIF): plan-cache key accessors and access observer",
+                "f21e9f7 verif hook (guarded by DSPLIB_VERIF): thread-local trial-division counter in the prime helpers"]
 
 CLAIMED = {
     "C04": dict(
@@ -64,6 +65,68 @@ CLAIMED.update({
              "Default-designed filters are covered by prefix mode of C06 and the alignment probe only.",
         technique="TLA+ multirate chain spec + TLC MC; trace validation with phase inferred by TLC",
         design="4/C08"),
+})
+
+CLAIMED.update({
+    "C15": dict(
+        text="MC_Primes: the trial-division loop of isprime/factor as a state machine over a 2^12-valued word satisfies result = "
+             "definition, the pi(sqrt n)+2 step bound and termination for every n; the word-wrapping variant (d*d computed in the "
+             "word) is kept as a documented failing model. Real code: isprime, nextpow2, ispow2 for every n < 2^17 (quick) / 2^22 "
+             "(thorough), factor for every n < 2^13 / 2^16, nextprime for every n < 2^14 / 2^18, primes(n) lists, windows around "
+             "2^16, 2^24, 2^31, 65521^2, 2^32 and products of primes near 2^16 (32-bit arguments as 16-bit limbs); TLC is the "
+             "oracle for values and for the trial-division count (<= 32 sqrt(n) + 1024 per primality test) read from the hook.",
+        note="Trusted: TLC, Primes.tla (trial-division definition, limb arithmetic), the DSPLIB_VERIF division counter, a 20 s alarm() "
+             "watchdog per call (a Timeout event has no action in the trace spec).",
+        technique="TLA+ loop model + TLC MC (incl. liveness); TLC as exhaustive oracle over traces of the real helpers",
+        design="4/C15"),
+    "C16": dict(
+        text="MC_Order: the median filter's incrementally updated sorted window equals the sorted ring and yields the window median "
+             "for EVERY input over a 3-letter alphabet (orders 3..6), i.e. all framings and inputs of the non-linear filter; rank "
+             "statistics range/symmetry/+-1 for all permutation pairs of length 4. Real code: sort (both directions: order, "
+             "permutation, sorted[i]=x[idx[i]]), median, medfilt on every array over {-1,0,1} up to length 5 (quick)/6 and random "
+             "arrays to 2000; MedianFilter orders 3..64 under random framings and all framings for small orders; Kendall tau and "
+             "Spearman rho as exact rationals for every permutation pair up to length 5/6 and samples up to 1000; Pearson and "
+             "large samples against long-double definitions.",
+        note="Trusted: TLC, Order.tla, driver integer encoding (medians doubled, tau/rho scaled by their denominators), long-double "
+             "references for Pearson and n > 1000 (T3).",
+        technique="TLA+ order-statistics spec + TLC MC over all inputs; exact trace validation on integer data",
+        design="4/C16"),
+    "C03": dict(
+        text="ArrayAlg.tla gives the field formulas on Gaussian integers, promotion, element-wise result predicates, concatenation "
+             "and selection, and a value-semantics step function; MC_ArrayAlg checks all programs of depth 3 (4 thorough) over "
+             "three variables: well-formedness, only the destination changes, a throwing step changes nothing, copies equal "
+             "their source. Real code (rel and ASan+UBSan builds): the whole operator table (4 ops x array-array / compound / "
+             "alias / scalar left and right for real, int, cmplx_t, std::complex / compound scalar x type pairings x lengths "
+             "0..3 and mismatches), unary, |, |=, self |=, concatenate with empty operands, mask and index-list selection, "
+             "random programs validated step by step by TLC; wide-magnitude operations vs a long-double interpreter (T3).",
+        note="Trusted: TLC, ArrayAlg.tla, driver Gaussian-integer encoding (divisors curated so quotients are exact), long-double "
+             "textbook formulas for the T3 clause.",
+        technique="TLA+ value-semantics spec + TLC MC; exact trace validation of the operator table and programs",
+        design="4/C03"),
+    "C01": dict(
+        text="Transform.tla states the DFT exponent matrix, pad/truncate semantics, conjugate symmetry, plan kinds, the factor "
+             "split and the Cooley-Tukey index algebra; MC_Transform proves the split computes the DFT exponents for every "
+             "composite length <= 40 (160 thorough) and walks every factorisation tree. Real code: for every n < 65 (161) and "
+             "every impulse position, 4 entry points: each output mapped to the nearest n-th root of unity and the exponent "
+             "vector compared exactly by TLC with m*k mod n; every n < 513 (4097) x 8 input classes x 6 entry points against a "
+             "long-double O(n^2) DFT, TLC checking the 32 n eps bound; fft(x,n') vs resize for n' in 1..2n; real vs complex; "
+             "conjugate symmetry; sampled lengths to 2^17 (primes, semiprimes, prime powers, 2^k p, highly composite) with a "
+             "sampled-bin oracle and Parseval; czt vs its defining sum.",
+        note="Trusted: TLC, Transform.tla, the long-double DFT oracle (twiddles indexed by m*k mod n) — the accuracy clause is a "
+             "T3 residual measured by the driver and only thresholded by TLC; the exponent matrix and shape clauses are exact.",
+        technique="TLA+ transform algebra + TLC theorems; impulse-row trace validation (exact) + residual thresholds",
+        design="4/C01"),
+    "C02": dict(
+        text="Round trips compared with the call's own input: ifft(fft(x)) for every n < 513 (2049) x 5 classes, irfft with n bins, "
+             "n/2+1 bins and the one-argument form for every even n, fft(irfft(X)) = X, IfftPlan / IfftPlanR; odd n must be "
+             "rejected by an exception; STFT grid (11 nfft, 6 windows, symmetric/periodic, every overlap accepted by iscola, 3 "
+             "ranges, OLA/WOLA, unaligned lengths): TLC checks segment count, bins per frame, output length, finiteness and the "
+             "reconstruction error on samples whose accumulated window weight is non-zero; Transform.tla theorems on the range "
+             "permutations and length arithmetic.",
+        note="Trusted: TLC, Transform.tla, driver's long-double window-weight accumulation; tolerance 64 n eps (round trips) fixed "
+             "with >10x headroom over the repaired tree.",
+        technique="TLA+ shape/arithmetic spec + TLC; round-trip trace validation",
+        design="4/C02"),
 })
 
 NOT_APPLICABLE = {
